@@ -116,21 +116,36 @@ def run(ctx, crate):
     g = R.Gen(crate, "vulnerabilities")
     if g.ok and not g.problems:
         b = g.body
-        outs = [s for s in g.pushes if g.in_loop(s, g.outer) and not g.in_loop(s, g.files) and len(R.flatten(s.args[1])) == 3]
+        outs = [s for s in g.pushes if g.in_loop(s, g.outer) and not g.in_loop(s, g.files)]
+        # a finding's block is the section text, a line feed and the list: appended at once, or piece by piece to the same buffer under the same condition
+        groups = {}
+        for s in sorted(outs, key=g.order_key):
+            groups.setdefault((s.args[0], repr(s.guard)), []).append(s)
+        outs = [ms[0] for ms in groups.values() if sum(len(R.flatten(m.args[1])) for m in ms) == 3]
+
+        def sevs_at(bb):
+            out = set()
+            for c in (core.block_guard_atoms(b, bb) or []):
+                for a in c:
+                    if a[0] == "isin" and T.calls_in(a[1], R.SECTION_FNS["vulnerabilities"].rsplit("::", 1)[-1]):
+                        out |= set(a[2])
+            return out
         sev_bufs = {}
         for s in outs:
             gs = s.guard or []
-            sevs = set()
-            for c in (core.block_guard_atoms(b, s.bb) or []):
-                for a in c:
-                    if a[0] == "isin" and T.calls_in(a[1], R.SECTION_FNS["vulnerabilities"].rsplit("::", 1)[-1]):
-                        sevs |= set(a[2])
-            head = R.lit(s.args[0])
-            for sv in sevs:
-                sev_bufs[sv] = s.args[0]
-            ok = len(sevs) == 1 and head is not None and list(sevs)[0].lower() in head.lower() and head.startswith("## ")
-            obs.append(Ob("R12.severity", g.path, "%s findings go to the buffer headed %r" % ("/".join(sorted(sevs)) or "?", head), ok, site=s.where,
-                          expected="append under `severity is S` to the buffer whose heading names S", found="guard %s" % S.guard_str(gs)[-120:]))
+            recv = s.args[0]
+            if recv[0] == "phi" and isinstance(recv[1], tuple) and len(recv[1]) == 2 and recv[1][0] == b.path:
+                # the buffer is chosen first (`let buf = match severity { High => &mut high, .. }`): one choice per severity
+                choices = [(sevs_at(bb), v) for (bb, v) in S.def_table(b, recv[1][1])]
+            else:
+                choices = [(sevs_at(s.bb), recv)]
+            for sevs, bufv in choices:
+                head = R.lit(bufv)
+                for sv in sevs:
+                    sev_bufs[sv] = bufv
+                ok = len(sevs) == 1 and head is not None and list(sevs)[0].lower() in head.lower() and head.startswith("## ")
+                obs.append(Ob("R12.severity", g.path, "%s findings go to the buffer headed %r" % ("/".join(sorted(sevs)) or "?", head), ok, site=s.where,
+                              expected="append under `severity is S` to the buffer whose heading names S", found="guard %s" % S.guard_str(gs)[-120:]))
         if set(sev_bufs) != {"High", "Medium", "Low"}:
             obs.append(Ob("R12.severity", g.path, "three severity buffers", False, found=sorted(sev_bufs)))
         # ---------------- R12.heading
